@@ -234,7 +234,16 @@ impl Check for C25 {
         let mut g = Grammar::new("S", vec![Prod { lhs: "S".into(), alts: vec![vec![Factor::t("a")]] }]);
         g.title = Some("\\d+ \\\\".to_string());
         g.initial.line_comments.push(Lit::raw("//"));
-        vec![GCase { grammar: g, tape: vec![] }]
+        // recorded finding: two non-terminals consisting of the same terminal, one hidden in a group
+        let h = Grammar::new(
+            "S",
+            vec![
+                Prod { lhs: "S".into(), alts: vec![vec![Factor::n("A"), Factor::n("B")]] },
+                Prod { lhs: "A".into(), alts: vec![vec![Factor::t("f")]] },
+                Prod { lhs: "B".into(), alts: vec![vec![Factor::Group(vec![vec![Factor::t("f")]])]] },
+            ],
+        );
+        vec![GCase { grammar: g, tape: vec![] }, GCase { grammar: h, tape: vec![] }]
     }
     fn run(&self, case: &GCase, st: &mut Stats) -> Verdict {
         let text = case.grammar.print();
@@ -256,7 +265,15 @@ impl Check for C25 {
             };
             let g2 = match pipeline::read_grammar(&rendered) {
                 Ok(g) => g,
-                Err(f) => return Verdict::Fail("C25:rendered_text_not_readable".into(), format!("{stage}: {}\nrendered:\n{rendered}\noriginal:\n{text}", crate::util::trunc(f.msg(), 400))),
+                Err(f) => {
+                    // recorded finding: two non-terminals that each consist of the same terminal are
+                    // only accepted when one of them hides the terminal in a group; the rendered
+                    // (group-free) text trips the token-alias check
+                    let sig = if f.msg().contains("Multiple token aliases") { "C25:rendered_text_rejected_for_multiple_token_aliases" } else { "C25:rendered_text_not_readable" };
+                    let m = f.msg();
+                    let tail = &m[m.char_indices().rev().nth(300).map(|(i, _)| i).unwrap_or(0)..];
+                    return Verdict::Fail(sig.into(), format!("{stage}: ...{tail}\nrendered:\n{rendered}\noriginal:\n{text}"));
+                }
             };
             let (a, b) = (fingerprint(gc), fingerprint(&g2));
             if a != b {
@@ -554,6 +571,18 @@ impl Check for C33 {
     type Case = GCase;
     fn id(&self) -> &'static str {
         "C33"
+    }
+    fn fixed_cases(&self) -> Vec<GCase> {
+        // recorded finding: the type of the alternative `Grammar: Trait` is named GrammarTrait
+        let g = Grammar::new(
+            "S",
+            vec![
+                Prod { lhs: "S".into(), alts: vec![vec![Factor::n("Grammar")]] },
+                Prod { lhs: "Grammar".into(), alts: vec![vec![Factor::t("b"), Factor::t("c")], vec![Factor::n("Trait")]] },
+                Prod { lhs: "Trait".into(), alts: vec![vec![Factor::t("+")]] },
+            ],
+        );
+        vec![GCase { grammar: g, tape: vec![] }]
     }
     fn rule(&self) -> String {
         "case = random grammar whose non-terminals are renamed to hostile names (Rust keywords in various casings, prelude and runtime type names, names that differ only by case / underscores / numeric suffix, helper-looking names) and whose terminals are drawn from texts that map to equal or awkward names (+, ++, +=, a, A, a_, _, 1, keywords, non-ASCII, punctuation runs), with member names and both grammar types; oracle on the generated sources: both files parse with syn; every TERMINAL_NAMES entry and every struct / enum / variant / field / method name is a valid identifier that is not a keyword; TERMINAL_NAMES entries are pairwise distinct, NON_TERMINALS entries are pairwise distinct, type names are pairwise distinct, fields of one struct, variants of one enum and methods of one trait / impl are pairwise distinct. Evaluations = grammars. Non-trivial = grammar where two source names map to the same upper-camel-case or snake-case form; distinct by grammar text".into()
